@@ -160,6 +160,25 @@ class Box(Generic[T]):
     def as_list(self) -> list[T]: ...
 
 
+class Mask:
+    pass
+
+
+class Vec:
+    """element-wise comparisons (numpy / sqlalchemy style): the comparison methods do NOT return bool"""
+
+    def __eq__(self, o: object) -> Mask: ...  # type: ignore[override]
+    def __ne__(self, o: object) -> "int | str": ...  # type: ignore[override]
+    def __lt__(self, o: "Vec") -> Mask: ...
+    def __le__(self, o: "Vec") -> Any: ...
+    def __gt__(self, o: "Vec") -> list[int]: ...
+    def __ge__(self, o: "Vec") -> int: ...
+    def __contains__(self, o: object) -> bool: ...
+    def __pos__(self) -> bool: ...
+    def __and__(self, o: "Vec") -> bool: ...
+    def __matmul__(self, o: "Vec") -> str: ...
+
+
 Alias = list[int]
 Alias2 = Alias
 AliasInt = int
@@ -216,6 +235,7 @@ v_box: Box[int] = Box(1)
 v_type_int: type[int] = int
 v_callable: Callable[[], int] = int
 v_none: None = None
+v_vec: Vec = Vec()
 i_int = 3
 i_str = "s"
 i_float = 1.5
@@ -422,7 +442,10 @@ def fixed_operands() -> list[tuple[str, str, str | None, bool]]:
                      "v_any + 1", "1 + v_any", "v_union + 1", "v_int + v_union", "v_opt + 1", "v_int << 1", "v_int ^ v_int", "v_mystr + v_str", "v_str + v_mystr", "v_mylist + v_list",
                      "v_list + v_mylist", "v_complex * 2", "v_int * v_complex", "v_path / 'x'", "'x' / v_path", "v_ie + 1", "v_se + 'x'", "v_alias + v_alias", "v_int @ v_int", "v_ulist + v_ulist", "v_ulist * 2", "v_unum + 1", "1 + v_unum", "v_ustrb * 2", "v_udict | v_udict"])
     add("bool-operator", ["v_int or v_str", "v_int and v_int", "v_int or v_int", "v_list or []", "v_opt or 0", "v_myint or v_int", "v_int and v_myint", "v_str and v_str", "v_any or 1"])
-    add("comparison", ["v_int < v_int", "v_int == v_int", "v_int in v_list", "v_int is None", "v_int < v_int < v_int", "v_user == v_user", "v_str not in v_str"])
+    add("comparison", ["v_int < v_int", "v_int == v_int", "v_int in v_list", "v_int is None", "v_int < v_int < v_int", "v_user == v_user", "v_str not in v_str",
+                       # comparison methods that do not return bool: the type of the comparison is what the method returns
+                       "v_vec == v_vec", "v_vec != v_vec", "v_vec < v_vec", "v_vec <= v_vec", "v_vec > v_vec", "v_vec >= v_vec", "v_vec == 1", "1 in v_vec",
+                       "v_vec is v_vec", "v_vec < v_vec < v_vec", "+v_vec", "v_vec & v_vec", "v_vec @ v_vec", "not v_vec", "(v_vec == v_vec) is True"])
     add("unary", ["-v_int", "+v_int", "~v_int", "-v_float", "-v_bool", "~v_bool", "+v_bool", "-v_user", "~v_user", "-v_myint", "-v_any", "-v_complex", "-v_opt", "-v_union", "-i_int", "- -v_int", "-v_unum", "~v_aliasu"])
     add("index", ["v_list[0]", "v_list[0:1]", "v_list[:]", "v_str[0]", "v_str[0:1]", "v_bytes[0]", "v_bytes[0:1]", "v_dict['a']", "v_tuple[0]", "v_tuple[1]", "v_tuple[0:1]", "v_tuplev[0]", "v_tuplev[0:1]",
                   "v_nt[0]", "v_nt[0:1]", 'v_td["k"]', "v_user[0]", "v_any[0]", "v_alias[0]", "v_alias[0:1]", "v_mylist[0]", "v_mylist[0:1]", "v_bytearray[0]", "v_bytearray[0:1]", "v_mystr[0]",
